@@ -41,6 +41,8 @@ func c07Stages() []c07StageInfo {
 		{s: lfmt(ren("a", "b"))},
 		{s: lfmt(ren("d", "missing"))},
 		{s: lfmt(ren("d", "a"), ren("e", "b"))},
+		{s: lfmt(ren("b", "a"), ren("a", "c"))},
+		{s: lfmt(ren("d", "a"), ren("a", "b"))},
 		{s: lfmt(tpl("d", tv("a"), tl("-"), tv("b")))},
 		{s: lfmt(tpl("d", refmodel.TPart{Line: true}))},
 		{s: lfmt(tpl("a", tl("new")))},
